@@ -198,6 +198,21 @@ def run(ctx, proof):
                     lits=gen.LITS + (["=low", "=", "==x", ":y", "=high"] if i % 3 == 0 else []))
         parts = g.grammar_parts()
         groups.append((f"rnd{i}", variants_of(rng, parts)))
+    # chains of definitions (each refers to the next, plus references back into the middle of the chain) under several
+    # orders of the definitions: whatever the code computes by sweeping over the definitions must not depend on
+    # where a definition stands relative to its users
+    for i in range(300 if ctx.thorough() else 30):
+        d = rng.randint(3, 6)
+        defs_ = [f"<N{j}> = --o{j} <N{j + 1}>;" for j in range(d)] + [f"<N{d}> = low | high;"]
+        for e in range(rng.randint(1, 2)):
+            defs_.append(f"<E{e}> = --again{e} <N{rng.randint(1, d)}>;")
+        head = "cmd (" + " | ".join(["<N0>"] + [f"<E{e}>" for e in range(len(defs_) - d - 1)]) + ");"
+        vs = [("original", "\n".join([head] + defs_) + "\n")]
+        for _ in range(5):
+            perm = defs_[:]
+            rng.shuffle(perm)
+            vs.append(("permute-definitions", "\n".join([head] + perm) + "\n"))
+        groups.append((f"chain{i}", vs))
     # the layouts of the theorem (grammar_layout_irrelevant): grammars over the operator ladder printed by the Lean
     # printer of Proofs/Statements.lean plainly and under 3 admissible layouts drawn from a seed
     from . import c05
